@@ -3,9 +3,20 @@
 // universe's Clock and the select-server wake-up time (which BasicInputPort::DmxChanged stamps
 // frames with) are plain variables set from the payload.
 #include <sys/time.h>
+#include <algorithm>
+#include <iterator>
+#include <map>
+#include <memory>
 #include <new>
+#include <set>
+#include <sstream>
 #include <string>
+#include <utility>
 #include <vector>
+// only to print the housekeeping mark of m_source_clients (an internal observable)
+#define private public
+#include "olad/Universe.h"
+#undef private
 #include "ola/Clock.h"
 #include "ola/DmxBuffer.h"
 #include "ola/io/SelectServerInterface.h"
@@ -92,12 +103,13 @@ class HPort: public ola::BasicInputPort {
 
 class HOut: public ola::BasicOutputPort {
  public:
-  explicit HOut(unsigned int id) : ola::BasicOutputPort(NULL, id), m_id(id) {}
+  explicit HOut(unsigned int id) : ola::BasicOutputPort(NULL, id), ret(true), m_id(id) {}
+  bool ret;  // scripted return value of WriteDMX
   string Description() const { return ""; }
   bool WriteDMX(const DmxBuffer &buffer, uint8_t priority) {
     Ev e = {'W', m_id, buffer.Get(), priority, false};
     g_events.push_back(e);
-    return true;
+    return ret;
   }
  private:
   unsigned int m_id;
@@ -105,11 +117,12 @@ class HOut: public ola::BasicOutputPort {
 
 class HClient: public ola::Client {
  public:
-  explicit HClient(unsigned int id) : ola::Client(NULL, ola::rdm::UID(0, id)), m_id(id) {}
+  explicit HClient(unsigned int id) : ola::Client(NULL, ola::rdm::UID(0, id)), ret(true), m_id(id) {}
+  bool ret;  // scripted return value of SendDMX
   bool SendDMX(unsigned int universe, uint8_t priority, const DmxBuffer &buffer) {
     Ev e = {'S', m_id, buffer.Get(), priority, universe != UNI};
     g_events.push_back(e);
-    return true;
+    return ret;
   }
  private:
   unsigned int m_id;
@@ -179,6 +192,16 @@ static string handle(const string &payload) {
       u->AddSourceClient(&clients[id]);
     } else if (op == "rs") {
       u->RemoveSourceClient(&clients[id]);
+    } else if (op == "cl") {
+      u->CleanStaleSourceClients();
+    } else if (op == "wr") {
+      outs[id]->ret = f[2] == "1";
+    } else if (op == "sr") {
+      clients[id].ret = f[2] == "1";
+    } else if (op == "sd") {
+      DmxBuffer b;
+      set_buf(&b, vh::unhex(f[1]));
+      u->SetDMX(b);
     } else if (op == "ao") {
       u->AddPort(static_cast<ola::OutputPort*>(outs[id]));
     } else if (op == "ro") {
@@ -215,7 +238,10 @@ static string handle(const string &payload) {
     out << "/";
     bool first = true;
     for (unsigned int i = 0; i < NOBJ; i++)
-      if (u->ContainsSourceClient(&clients[i])) { out << (first ? "" : ".") << i; first = false; }
+      if (u->ContainsSourceClient(&clients[i])) {
+        out << (first ? "" : ".") << i << (u->m_source_clients[&clients[i]] ? "*" : "");
+        first = false;
+      }
     out << "/";
     vector<ola::OutputPort*> ops;
     u->OutputPorts(&ops);
